@@ -78,8 +78,8 @@ def plans(seed, q):
         # every order of the relationship-creating calls, with Reopen in between
         ("core", dict(ops=core, depth=3 if q else 4, kinds=k2[:1], where=("body",))),
         # after opening packages with arbitrary relationship ids
-        ("foreign", dict(ops=fcore, depth=2 if q else 3, kinds=("default",), where=("body", "cell") if not q else ("body",),
-                         new=False, schemes=SCHEMES, contents=["full"] if q else ["min", "mix", "notes", "full"])),
+        ("foreign", dict(ops=fcore, depth=2 if q else 3, kinds=("default",), where=("body",),
+                         new=False, schemes=SCHEMES, contents=["full"] if q else ["mix", "full"])),
     ]
     if q:
         P += [("foreign1", dict(ops=ALLOPS, depth=1, via=VIA1 | {"legacy"}, new=False, schemes=SCHEMES,
@@ -89,13 +89,17 @@ def plans(seed, q):
                                   schemes=SCHEMES[seed % 3::3], contents=["hf", "full"], flags=(False,), abs_=(True,)))]
     else:
         P += [
-            ("foreign1", dict(ops=ALLOPS, depth=1, via=ALLVIA, new=False, schemes=SCHEMES, contents=CONTENTS, flags=(True, False), abs_=(False, True))),
+            ("foreign1", dict(ops=ALLOPS, depth=1, via=ALLVIA - {"file"}, new=False, schemes=SCHEMES, contents=CONTENTS, flags=(True, False), abs_=(False, True))),
+            ("foreignfile", dict(ops=fcore, depth=1, via=VIA1 | {"file"}, new=False, schemes=SCHEMES, contents=["hf", "full"], abs_=(False, True))),
+            ("foreign2", dict(ops=fcore + ["AddHeaderWithPageNumber", "AddFooter", "SetProps"], depth=2, kinds=("default", "even"), where=("body", "cell"),
+                              new=False, schemes=SCHEMES, contents=["min", "notes", "hf2"])),
             # redefinitions free ids in the middle of the list: constructors x kinds x other creating calls, deeper
             ("hf", dict(ops=HF6 + ["AddImage", "Reopen"], depth=3, kinds=k2, where=("body",))),
             ("hf4", dict(ops=["AddHeader", "AddFooter", "AddImage", "AddFootnote", "Reopen"], depth=4, kinds=k2[:1], where=("cell",))),
-            ("tmpl", dict(ops=["Placeholder", "Render", "AddImage", "AddHeader", "Reopen", "Save"], depth=4, kinds=("default",),
+            ("hf5", dict(ops=["AddHeader", "AddImage", "Reopen"], depth=6, kinds=k2[:1], where=("body",))),
+            ("tmpl", dict(ops=["Placeholder", "Render", "AddImage", "AddHeader", "Reopen"], depth=4, kinds=("default",),
                           where=("body", "cell"), via=VIA1 | {"legacy", "renderer"})),
-            ("foreignhf", dict(ops=HF6 + ["AddImage"], depth=2, new=False, schemes=SCHEMES, contents=["hf", "hf2", "full"], flags=(True,), abs_=(False, True))),
+            ("foreignhf", dict(ops=HF6 + ["AddImage"], depth=2, kinds=k2, where=("body",), new=False, schemes=SCHEMES, contents=["hf", "hf2", "full"])),
         ]
     return P
 
